@@ -111,7 +111,14 @@ def analyze_vs_lift(ctx: Ctx, rows: dict, cases: list, addr: int = ADDR, tag: st
             continue
         ctrl_ops.add(c.opcode)
         if is_ir:
-            continue  # software interrupt: counts as a call that returns to address+length
+            # software interrupt: counts as a call that returns to address+length; its destination is read from the vector, so a
+            # constant destination may not be claimed for it
+            kind_, target_, _idx = tr[-1]
+            if ilfacts.value_of(target_) is None:
+                consts = [(k, t) for k, t in br if t is not None]
+                if consts:
+                    groups[("C05.1/const-target", c.opcode, f"IL transfers control through {_term(target_)} (the interrupt vector's contents) but analyze reports {consts[0][0]} to the constant {_s(consts[0][1])}")].append(c)
+            continue
         if not br:
             groups[("C05.2/reports-branch", c.opcode, f"IL transfers control ({[k for k, _t, _i in tr]}) but analyze reports no branch")].append(c)
             continue
